@@ -21,6 +21,11 @@ for bid in ids:
         print(bid, "PATCH DOES NOT APPLY")
         continue
     out = {}
+    ev_saved = {}
+    for p in (props or ALL):
+        evp = os.path.join(V, "evidence", p + ".json")
+        if os.path.exists(evp):
+            ev_saved[evp] = open(evp).read()
     try:
         for p in (props or ALL):
             c = subprocess.run([os.path.join(V, "check"), p, "--tier", "quick"], capture_output=True, text=True, cwd=V)
@@ -30,5 +35,7 @@ for bid in ids:
             print("%-6s %s exit=%d viol=%s und=%s" % (bid, p, c.returncode, viol, und[:3]), flush=True)
     finally:
         subprocess.run(["git", "-C", "/repo", "checkout", "--", "."], check=True)
+        for evp, txt in ev_saved.items():
+            open(evp, "w").write(txt)  # evidence files describe runs against /repo itself, never a modified tree
     results.setdefault(bid, {}).update(out)
     json.dump(results, open(res_path, "w"), indent=1)
